@@ -194,7 +194,11 @@ def variable_to_string(variable_type, var_value):
             or variable_type.__name__ in LIST_LIKE_TYPES:
         # if we are a collection then we do not want to use built in string as this can be very
         # large, and quite pointless, instead we just get the size of the collection
-        return 'Size: %s' % len(var_value)
+        try:
+            return 'Size: %s' % len(var_value)
+        except Exception:
+            # a value can have the name of a collection type and still fail to give its size
+            return safe_str(var_value)
     else:
         return safe_str(var_value)
 
@@ -298,7 +302,12 @@ def process_child_nodes(
             var_collector.append_child(variable_id, child)
 
     # scan the child based on type
-    return find_children_for_parent(var_collector, VariableParent(), var_value, variable_type)
+    try:
+        return find_children_for_parent(var_collector, VariableParent(), var_value, variable_type)
+    except Exception:
+        # looking at a value can fail (e.g. a custom __getattr__), then we collect the value without children
+        logging.exception("Cannot collect children of type %s", variable_type)
+        return []
 
 
 def correct_names(name, val):
